@@ -519,11 +519,12 @@ class ToIR:
     Unknown constructs raise Undecided.
     """
 
-    def __init__(self, env=None, attr=None, call=None, free_names=True):
+    def __init__(self, env=None, attr=None, call=None, free_names=True, subscript=None):
         self.env = dict(env or {})
         self.attr = attr
         self.call = call
         self.free_names = free_names
+        self.subscript = subscript
 
     def __call__(self, node):
         return self.conv(node)
@@ -548,6 +549,10 @@ class ToIR:
             if d and self.free_names:
                 return sym(d)
             raise Undecided(f"attribute {ast.unparse(node)}")
+        if isinstance(node, ast.Subscript) and self.subscript:
+            r = self.subscript(node, self)
+            if r is not None:
+                return r
         if isinstance(node, ast.UnaryOp):
             if isinstance(node.op, ast.USub):
                 return neg(self.conv(node.operand))
@@ -578,3 +583,21 @@ def parse_expr(text: str, **kw):
     """Parse a Python-syntax expression string into IR."""
     tree = ast.parse(text.strip(), mode="eval")
     return ToIR(**kw).conv(tree.body)
+
+
+def shift_subscript(node, conv):
+    """model-language time shift: name[k] -> symbol 'name@k' (k integer literal); name[0] is name"""
+    if isinstance(node.value, ast.Name):
+        try:
+            k = ast.literal_eval(node.slice)
+        except Exception:
+            return None
+        if isinstance(k, int):
+            return sym(node.value.id if k == 0 else f"{node.value.id}@{k}")
+    return None
+
+
+def parse_model_expr(text: str, env=None):
+    """Parse a model-language expression (Python syntax, ^ as power, name[k] time shifts) into IR."""
+    tree = ast.parse(text.strip().replace("^", "**"), mode="eval")
+    return ToIR(env=env, subscript=shift_subscript).conv(tree.body)
